@@ -35,10 +35,9 @@ package bus
 //@   ensures c.replies == old(c.replies) + 1
 
 //@ func NewMailBox(r Receiver) (result MailBox)
-//@   trusted
+//@   requires r != nil
 //@   ensures result != nil && fresh(result) && !result.chclosed
 //@ func objectActivation(service *serviceImpl, session Session, serviceID uint32, objectID uint32) (result Activation)
-//@   trusted
 //@   pure
 
 // ---- serviceImpl: object table of a service (C16)
@@ -438,7 +437,7 @@ package bus
 //@   ensures[C04] c.endpoint.sentcount == old(c.endpoint.sentcount) + 1 && c.endpoint.lasttype == 2
 //@   ensures[C04] c.endpoint.lastid == msg.Header.ID && c.endpoint.lastservice == msg.Header.Service && c.endpoint.lastobject == msg.Header.Object && c.endpoint.lastaction == msg.Header.Action
 //@ func errorPaylad(err error) (result []byte)
-//@   trusted
+//@   requires err != nil
 //@   pure
 //@ func (c *channel) SendError(msg *net.Message, e error) (err error)
 //@   tags C04
@@ -452,7 +451,6 @@ package bus
 //@ interface (t Tracer) Trace(msg *net.Message, id uint32)
 //@   trusted
 //@ func (m MethodStatistics) updateWith(t time.Duration) (result MethodStatistics)
-//@   trusted
 //@   pure
 // (trusted: its precise frame cannot be stated under the monitor rule — the table field itself is
 // havocked at the acquire — and `everything` would erase the message record its callers speak about)
@@ -516,7 +514,7 @@ package bus
 //@   trusted
 //@   modifies everything
 //@ func findSignature(msg *net.Message, meta *object.MetaObject) (result string)
-//@   trusted
+//@   requires msg != nil && meta != nil
 //@   pure
 //@ func (o *objectImpl) Trace(msg *net.Message, id uint32)
 //@   tags C12
